@@ -393,6 +393,58 @@ def compile_tables(ctx, cfgs):
     return mods
 
 
+def coq_jobs(ctx, imports, jobs, timeout=900):
+    """Evaluate several case suites with different check functions / preludes in ONE pool of lib.PAR
+    coqc processes (lib.coq_bad_cases runs one suite at a time).
+    jobs: list of (tag, check_fn, cases, shard, prelude).  Returns {tag: (set of bad indices, error or None)}."""
+    import os
+    import re
+    import lib
+    from concurrent.futures import ThreadPoolExecutor
+    files = []
+    res = {}
+    for tag, check_fn, cases, shard, prelude in jobs:
+        res[tag] = (set(), [])
+        for si in range(0, len(cases), shard):
+            name = f"cases_{tag}_{si // shard}.v"
+            with open(os.path.join(ctx.dir, name), "w") as f:
+                f.write("From Coq Require Import String ZArith List Bool Floats.PrimFloat.\n")
+                f.write(f"From Sketchnu Require Import {imports}.\n")
+                f.write("Import ListNotations.\nOpen Scope Z_scope.\n")
+                f.write(prelude + "\n")
+                f.write("Definition cases := [\n")
+                f.write(";\n".join(f"({i}, {c})" for i, c in enumerate(cases[si:si + shard], si)))
+                f.write("\n].\n")
+                f.write(f"Eval vm_compute in (bad_cases ({check_fn}) cases).\n")
+            files.append((tag, name))
+
+    def one(tn):
+        import time
+        t = time.time()
+        r = lib.run(["coqc"] + lib.COQFLAGS + [tn[1]], timeout, cwd=ctx.dir)
+        return tn, r, time.time() - t
+    slow = []
+    with ThreadPoolExecutor(max_workers=lib.PAR) as ex:
+        for (tag, name), (rc, out, err), dt in ex.map(one, files):
+            bad, errs = res[tag]
+            if dt > 20:
+                slow.append((name, round(dt, 1)))
+            if rc != 0:
+                errs.append(f"{name}: rc={rc} {err.strip()[:600]}")
+                continue
+            flat = " ".join(out.split())
+            m = re.search(r"= \[(.*?)\]\s*:\s*list Z", flat)
+            if not m:
+                errs.append(f"{name}: unparsable output {flat[:300]}")
+                continue
+            body = m.group(1).strip()
+            if body:
+                bad |= {int(x) for x in re.findall(r"-?\d+", body)}
+    if slow:
+        lib.log("slow coq case files:", slow)
+    return {tag: (bad, "; ".join(errs) if errs else None) for tag, (bad, errs) in res.items()}
+
+
 # ---------------------------------------------------------------------------- exact arithmetic on tables
 def pow_bounds(base, n, bits=160):
     """(lo, hi) Fractions with lo <= Fraction(base)**n <= hi, n >= 0, by square-and-multiply on
